@@ -11,10 +11,15 @@ from __future__ import annotations
 from .core import Inconclusive, Violation
 
 
-def single_preemptions(run_and_judge, n_lines, stride=1, offset=0, max_alts=8, max_runs=None):
+ORDERS = ("old", "new")
+
+
+def single_preemptions(run_and_judge, n_lines, stride=1, offset=0, max_alts=8, max_runs=None, order=0):
     """-> (runs, [(Violation, (line, alt)), ...], inconclusive)
-    alt encodes (index of the thread that takes over, mode): alt = 2*index + m, m=0 'delay' (the preempted thread
-    stays suspended until nothing else can run), m=1 'yield' (it competes again as soon as the other one blocks)"""
+    alt encodes (index of the thread that takes over, mode, order): alt = (2*index + m) * 2 + order;
+    m=0 'delay' (the preempted thread stays suspended until nothing else can run), m=1 'yield' (it competes again as
+    soon as the other one blocks); order 0/1 = default policy at free choices: oldest / newest runnable thread first.
+    `n_lines` is the traced length of the unpreempted run under the same `order`."""
     runs, viol, inconclusive = 0, [], 0
     for line in range(1 + offset % max(1, stride), n_lines + 1, max(1, stride)):
         if max_runs is not None and runs >= max_runs:
@@ -22,7 +27,7 @@ def single_preemptions(run_and_judge, n_lines, stride=1, offset=0, max_alts=8, m
         for index in range(max_alts):
             n_c = None
             for m in (0, 1):
-                alt = 2 * index + m
+                alt = (2 * index + m) * 2 + order
                 runs += 1
                 sched = None
                 try:
@@ -41,7 +46,13 @@ def single_preemptions(run_and_judge, n_lines, stride=1, offset=0, max_alts=8, m
 
 
 def line_sparse(alt):
-    return dict(pre=[], blk=[], line_pick=alt // 2, line_mode="delay" if alt % 2 == 0 else "yield")
+    order = ORDERS[alt % 2]
+    alt //= 2
+    return dict(pre=[], blk=[], line_pick=alt // 2, line_mode="delay" if alt % 2 == 0 else "yield", order=order)
+
+
+def base_sparse(order=0):
+    return dict(pre=[], blk=[], order=ORDERS[order])
 
 
 def plan_stride(n_lines, tier, target_runs=600):
